@@ -101,17 +101,6 @@ def C12FreshIds (cfg : Cfg) : Prop :=
   ∀ h : List Op, holds cfg okWF .init h = true → holds cfg okFresh .init h = true →
     UpdateExact (run cfg .init h).log ∧ ExactlyOnce (run cfg .init h).log
 
-/-- (a) trials 1,2,3; complete 1 and 3; update (gets {1,3}); delete 3; complete 2; update -/
-def witnessShortcut : List Op :=
-  [.create .active, .create .active, .create .active, .setStatus 1 .completed, .setStatus 3 .completed,
-   .update .live, .delete 3, .setStatus 2 .completed, .update .live]
-
-/-- (b) complete 1..3; update; delete 3; create (id 3 again); complete it; update -/
-def witnessIdReuse : List Op :=
-  [.create .active, .create .active, .create .active, .setStatus 1 .completed, .setStatus 2 .completed,
-   .setStatus 3 .completed, .update .live, .delete 3, .create .active, .setStatus 3 .completed,
-   .update .live]
-
 /-- (a): no id is re-used, yet with `len(inc) == max_trial_id` (2 = 2) the completed trial 2 is
 not delivered in the update that should carry it -/
 theorem c12_shortcut_counterexample : ¬ C12FreshIds .asWritten := by
